@@ -210,6 +210,10 @@ def mutations(w, n, i):
     for hh in (h - 1, h + 1, 0, -1, -2, w.length, w.length + 1, 10 ** 9):
         if hh != h:
             yield 'height', hh, raw, hh, dict(g, block_height=hh)
+            # real servers repeat the block height inside the proof; the wallet must judge the proof against
+            # the header of the height it RECORDS the transaction at, whichever of the two disagrees
+            yield 'height-arg-only', hh, raw, hh, g
+            yield 'height-dict-only', hh, raw, h, dict(g, block_height=hh)
     # no 'merkle' key in the answer
     yield 'no-merkle-key', 0, raw, h, {'block_height': h, 'pos': i}
 
@@ -242,8 +246,12 @@ def judge_case(w, impl, res, n, i, kind, detail, raw, height, merkle, via_networ
     if tx.is_segwit_flag:
         res.tally('tx_mutant_turned_segwit_skipped')
         return f'{kind} {detail}: mutant parses as segwit (txid rule is C05)'
-    in_range, folds = expected(w, raw, height, merkle)
     verified = bool(tx.is_verified)
+    # "recorded as verified at a height": judge against the header of the height the wallet recorded
+    if verified and isinstance(tx.height, int) and tx.height != height and kind != 'genuine':
+        res.tally('recorded-height-differs-from-supplied-height')
+        height = tx.height
+    in_range, folds = expected(w, raw, height, merkle)
     line = (f'n={n} i={i} {kind} {detail} net={via_network}: is_verified={verified} position={tx.position} '
             f'height={tx.height} exc={exc}; reference: header_known={in_range} folds_to_root={folds}')
     sig = {'mutation': kind, 'shape': shape(n, i)}
@@ -297,7 +305,7 @@ def direct_root_check(w, res, n, i):
                       {'N': w.N, 'n': n, 'i': i, 'kind': 'direct-root', 'detail': 0, 'via_network': False})
 
 
-NETWORK_TOO = ('genuine', 'height', 'no-merkle-key', 'pos-bit', 'branch-drop')
+NETWORK_TOO = ('genuine', 'height', 'height-arg-only', 'height-dict-only', 'no-merkle-key', 'pos-bit', 'branch-drop')
 
 
 def reused_object_history(w, impl, res, n, i):
